@@ -85,78 +85,7 @@ func runC17(c *core.Ctx) {
 	c.Doc("monoid-combine-promoted", 1, "Combine resolves through the embedded Semigroup")
 	c.Doc("instances", 4, "eq.Int/eq.String/ord.Int/ord.String are values of the generic instance types")
 
-	// ---- ord constants
-	ordPkg := c.W.SSA["pure/ord"]
-	cv := map[string]int64{}
-	okConst := ordPkg != nil
-	if okConst {
-		for _, n := range []string{"LT", "EQ", "GT"} {
-			k, _ := ordPkg.Members[n].(*ssa.NamedConst)
-			if k == nil {
-				okConst = false
-				break
-			}
-			v, exact := constant.Int64Val(k.Value.Value)
-			if !exact {
-				okConst = false
-			}
-			cv[n] = v
-		}
-	}
-	if okConst {
-		c.Check(cv["LT"] != cv["EQ"] && cv["EQ"] != cv["GT"] && cv["LT"] != cv["GT"], "ord-constants", "ord.LT/EQ/GT", ordPkg.Members["LT"].Pos(),
-			fmt.Sprintf("LT=%d EQ=%d GT=%d", cv["LT"], cv["EQ"], cv["GT"]), "LT=%d EQ=%d GT=%d are not pairwise distinct", cv["LT"], cv["EQ"], cv["GT"])
-	} else {
-		c.Undecided("ord-constants", "ord.LT/EQ/GT", 0, "constants not found")
-	}
-
-	// ---- instance methods: resolved from the exported instance values, not by type name
-	seenFn := map[*ssa.Function]bool{}
-	for _, x := range [][3]string{{"pure/ord", "Int", "Compare"}, {"pure/ord", "String", "Compare"}, {"pure/eq", "Int", "Equal"}, {"pure/eq", "String", "Equal"}} {
-		sp := c.W.SSA[x[0]]
-		iname := x[0][5:] + "." + x[1]
-		k, _ := sp.Members[x[1]].(*ssa.NamedConst)
-		var m *ssa.Function
-		if k != nil {
-			if sel := c.W.Prog.MethodSets.MethodSet(k.Type()).Lookup(sp.Pkg, x[2]); sel != nil {
-				m = c.W.Prog.MethodValue(sel)
-				if m != nil && m.Origin() != nil {
-					m = m.Origin()
-				}
-			}
-			if m == nil {
-				// method of a generic named type: look it up on the origin type
-				if nt, ok := k.Type().(*types.Named); ok {
-					for i := 0; i < nt.Origin().NumMethods(); i++ {
-						if nt.Origin().Method(i).Name() == x[2] {
-							m = c.W.Prog.FuncValue(nt.Origin().Method(i))
-						}
-					}
-				}
-			}
-		}
-		if m == nil || len(m.Blocks) == 0 {
-			c.Undecided("instances", iname, 0, "cannot resolve %s of the instance %s", x[2], iname)
-			continue
-		}
-		elem := ""
-		if nt, ok := k.Type().(*types.Named); ok && nt.TypeArgs().Len() == 1 {
-			elem = nt.TypeArgs().At(0).String()
-		} else if len(m.Params) >= 2 {
-			elem = m.Params[len(m.Params)-1].Type().String()
-		}
-		want := map[string]string{"Int": "int", "String": "string"}[x[1]]
-		c.Check(elem == want, "instances", iname, k.Pos(), iname+" compares "+elem, "%s compares %s values, expected %s", iname, elem, want)
-		if seenFn[m] {
-			continue
-		}
-		seenFn[m] = true
-		if x[2] == "Compare" {
-			checkCompare(c, m, cv, okConst)
-		} else {
-			checkEqual(c, m)
-		}
-	}
+	instanceRules(c, [][3]string{{"pure/ord", "Int", "Compare"}, {"pure/ord", "String", "Compare"}, {"pure/eq", "Int", "Equal"}, {"pure/eq", "String", "Equal"}})
 
 	// ---- ContraMap
 	for _, x := range [][3]string{{"pure/eq", "Equal", "Eq"}, {"pure/ord", "Compare", "Ord"}} {
@@ -206,6 +135,85 @@ func runC17(c *core.Ctx) {
 	}
 
 	monoidRules(c)
+
+}
+
+// instanceRules: the ordering constants are distinct and the library's own instance values (ord.Int, ord.String,
+// eq.Int, eq.String - those listed in which) are what their names say: Compare answers LT/EQ/GT exactly for
+// a<b / a==b / a>b on every path, Equal is ==. Shared by C17 and - for the ord instances a skip list is built with - C18.
+func instanceRules(c *core.Ctx, which [][3]string) {
+	// ---- ord constants
+	ordPkg := c.W.SSA["pure/ord"]
+	cv := map[string]int64{}
+	okConst := ordPkg != nil
+	if okConst {
+		for _, n := range []string{"LT", "EQ", "GT"} {
+			k, _ := ordPkg.Members[n].(*ssa.NamedConst)
+			if k == nil {
+				okConst = false
+				break
+			}
+			v, exact := constant.Int64Val(k.Value.Value)
+			if !exact {
+				okConst = false
+			}
+			cv[n] = v
+		}
+	}
+	if okConst {
+		c.Check(cv["LT"] != cv["EQ"] && cv["EQ"] != cv["GT"] && cv["LT"] != cv["GT"], "ord-constants", "ord.LT/EQ/GT", ordPkg.Members["LT"].Pos(),
+			fmt.Sprintf("LT=%d EQ=%d GT=%d", cv["LT"], cv["EQ"], cv["GT"]), "LT=%d EQ=%d GT=%d are not pairwise distinct", cv["LT"], cv["EQ"], cv["GT"])
+	} else {
+		c.Undecided("ord-constants", "ord.LT/EQ/GT", 0, "constants not found")
+	}
+
+	// ---- instance methods: resolved from the exported instance values, not by type name
+	seenFn := map[*ssa.Function]bool{}
+	for _, x := range which {
+		sp := c.W.SSA[x[0]]
+		iname := x[0][5:] + "." + x[1]
+		k, _ := sp.Members[x[1]].(*ssa.NamedConst)
+		var m *ssa.Function
+		if k != nil {
+			if sel := c.W.Prog.MethodSets.MethodSet(k.Type()).Lookup(sp.Pkg, x[2]); sel != nil {
+				m = c.W.Prog.MethodValue(sel)
+				if m != nil && m.Origin() != nil {
+					m = m.Origin()
+				}
+			}
+			if m == nil {
+				// method of a generic named type: look it up on the origin type
+				if nt, ok := k.Type().(*types.Named); ok {
+					for i := 0; i < nt.Origin().NumMethods(); i++ {
+						if nt.Origin().Method(i).Name() == x[2] {
+							m = c.W.Prog.FuncValue(nt.Origin().Method(i))
+						}
+					}
+				}
+			}
+		}
+		if m == nil || len(m.Blocks) == 0 {
+			c.Undecided("instances", iname, 0, "cannot resolve %s of the instance %s", x[2], iname)
+			continue
+		}
+		elem := ""
+		if nt, ok := k.Type().(*types.Named); ok && nt.TypeArgs().Len() == 1 {
+			elem = nt.TypeArgs().At(0).String()
+		} else if len(m.Params) >= 2 {
+			elem = m.Params[len(m.Params)-1].Type().String()
+		}
+		want := map[string]string{"Int": "int", "String": "string"}[x[1]]
+		c.Check(elem == want, "instances", iname, k.Pos(), iname+" compares "+elem, "%s compares %s values, expected %s", iname, elem, want)
+		if seenFn[m] {
+			continue
+		}
+		seenFn[m] = true
+		if x[2] == "Compare" {
+			checkCompare(c, m, cv, okConst)
+		} else {
+			checkEqual(c, m)
+		}
+	}
 
 }
 
